@@ -49,9 +49,8 @@ class Segment(object):
 
     @property
     def key(self):
-        if self.l2 is None:
-            return self.l1
-        return f"{self.l1}-{self.l2}"
+        """Identity of the node or edge (labels are not joined into a string: 'a-b'+'c' and 'a'+'b-c' differ)."""
+        return self.l1, self.l2
 
     @property
     def pi(self):
